@@ -54,6 +54,8 @@ def obligations(tier, H):
                 if nb == 1 and neigh[0] == "notify":
                     continue
                 styles.append({"style": "batch", "n": nb, "pos": pos, "neigh": list(neigh)})
+    styles.append({"style": "batch", "n": 1, "pos": 0, "neigh": ["call"], "reuse": True})
+    styles.append({"style": "batch", "n": 2, "pos": 1, "neigh": ["notify", "call"], "reuse": True})
     for ci, cfg in enumerate(configs):
         if not thorough and cfg["server"] != "bare" and (cfg["sver"], cfg["cver"]) not in ((2.0, None), (1.0, None)):
             continue
